@@ -94,6 +94,11 @@ def shuffled(atom: Atom) -> List[Atom]:
         ["int 5"] + atom + ["cover 1", "pop"],
         ["int 5"] + atom + ["uncover 1", "pop"],
     ]
+    # the constant is one of several values pushed by a single multi-push instruction
+    if len(atom) == 3 and atom[1].startswith("int ") and atom[1][4:].isdigit() and not atom[0].startswith("int "):
+        c = atom[1][4:]
+        out.append([atom[0], f"pushints {c} 5", "pop", atom[2]])
+        out.append([f"pushints 5 {c}", "swap", "pop", atom[0], atom[2]] if atom[2] in ("==", "!=") else [atom[0], f"pushints 5 {c} 3", "pop", "swap", "pop", atom[2]])
     return out
 
 
